@@ -146,7 +146,10 @@ def witnesses(name, cls):
     return out
 
 
-def answers(cls, wits):
+def answers(cls, wits, shared=None):
+    """`shared`: record OBJECTS that an earlier operation of the history already typed (with another class); the query then
+    wraps those very objects instead of equal new ones"""
+    shared = shared or {}
     out = {}
     from Bio.SeqRecord import SeqRecord
     for wid, s in wits:
@@ -158,7 +161,7 @@ def answers(cls, wits):
             except Exception as ex:
                 out[wid] = ["raises", type(ex).__name__]
             continue
-        e = cls(CircularRecord(Seq(s), id="w"))
+        e = cls(shared.get(wid) or CircularRecord(Seq(s), id="w"))
         try:
             v = e.is_valid()
             if v:
@@ -242,7 +245,7 @@ def histories_for(b, tier):
             hs.append([("define", a), ("validate", a)])
         else:
             hs.append([("validate", a)])
-    # live primers: another class of the same kit (ancestors included) types the query's own witness records and stays referenced
+    # live primers: another class of the same kit (ancestors included) types the query's own witness record OBJECTS and stays referenced
     fam_b = family(b)
     for a in names:
         if a != b and not a.startswith("dyn-") and family(a) == fam_b:
@@ -277,6 +280,7 @@ _KEEP = []
 def _history_body(hist, b):
     """executed in a forked child: nothing any earlier history did can be visible here"""
     dyn = {}
+    shared = {}
     states = [cache_state()]
     for op, x in hist:
         if op == "define":
@@ -289,7 +293,10 @@ def _history_body(hist, b):
             qc = resolve(b, dyn) if not b.startswith("dyn-") or b in dyn else None
             if qc is not None:
                 for wid, s in witnesses(b, qc):
-                    e = kc(CircularRecord(Seq(s), id="w"))
+                    rec_ = CircularRecord(Seq(s), id="w")
+                    if ":" not in wid or wid.startswith("inst:"):
+                        shared[wid] = rec_          # the query will wrap this very object
+                    e = kc(rec_)
                     try:
                         if e.is_valid():
                             e.overhang_start()
@@ -301,7 +308,7 @@ def _history_body(hist, b):
         states.append(cache_state())
     cls = resolve(b, dyn)
     wits = witnesses(b, cls)
-    got = answers(cls, wits)
+    got = answers(cls, wits, shared)
     states.append(cache_state())
     return [hash(s) for s in states], got, [w for w, _ in wits]
 
